@@ -491,6 +491,16 @@ class TLSConnection(TLSRecordLayer):
         settings = settings.validate()
         self._recordLayer.padding_cb = settings.padding_cb
 
+        # there are no SRP or anonymous cipher suites in TLS 1.3: advertising
+        # TLS 1.3 together with them makes a TLS 1.3 server select a version
+        # for which no common cipher suite can exist
+        if (srpParams or anonParams) and settings.maxVersion > (3, 3):
+            if settings.minVersion > (3, 3):
+                raise ValueError("SRP and anonymous key exchange need "
+                                 "TLS 1.2 or earlier")
+            settings.maxVersion = (3, 3)
+            settings.versions = [i for i in settings.versions if i < (3, 4)]
+
         if clientCertChain:
             if not isinstance(clientCertChain, X509CertChain):
                 raise ValueError("Unrecognized certificate type")
